@@ -65,6 +65,46 @@ func genMeta(r *vh.Rand) string {
 	return strings.Join(items, ",")
 }
 
+// genReflMeta: the gun option reflect_metadata (credentials of the reflection request). Keys come from the
+// same pool as the entries' metadata keys, so an entry may or may not carry a key that reflect_metadata has.
+func genReflMeta(r *vh.Rand) string {
+	if !r.Chance(2, 5) {
+		return ""
+	}
+	k := r.PickInt([]int{1, 1, 2, 3})
+	used := map[string]bool{}
+	var items []string
+	for len(items) < k {
+		key := r.Pick(mdKeys)
+		if used[strings.ToLower(key)] {
+			continue
+		}
+		used[strings.ToLower(key)] = true
+		items = append(items, vh.HexS(key)+"="+vh.HexS(r.Pick([]string{"Bearer reflection-robot", "1", "refl", ""})+asciiVal(r)))
+	}
+	return " rm=" + strings.Join(items, ",")
+}
+
+// the target's answers: gRPC status codes 1..16, UNAVAILABLE / RESOURCE_EXHAUSTED / INTERNAL (what an
+// overloaded or restarting backend says) more often
+var answerCodes = []int{14, 14, 14, 14, 8, 8, 13, 13, 4, 1, 2, 3, 5, 6, 7, 9, 10, 11, 12, 15, 16}
+
+// genPlan: answers for the first ncalls unary calls the target receives, in arrival order.
+func genPlan(r *vh.Rand, ncalls int, num, den int) string {
+	if !r.Chance(num, den) {
+		return ""
+	}
+	var p []string
+	for i := 0; i < ncalls; i++ {
+		if r.Chance(1, 2) {
+			p = append(p, "0")
+		} else {
+			p = append(p, fmt.Sprint(r.PickInt(answerCodes)))
+		}
+	}
+	return " fl=p" + strings.Join(p, ".")
+}
+
 // genPayload: a payload for method m; ill=true plants exactly one ill-typed / unknown field.
 func genPayload(r *vh.Rand, m methodD, ill bool) string {
 	if !ill && r.Chance(1, 12) {
@@ -175,8 +215,16 @@ func genJSON(r *vh.Rand) string {
 	if r.Chance(1, 3) {
 		modeR += "r" // reflection served on another port
 	}
-	return fmt.Sprintf("json %s %s %d %d %d %d %s", modeR, vh.B(r.Chance(1, 2)), r.Range(0, 3), ninst,
-		r.PickInt([]int{0, 0, 2000, 5000, 40000}), n, strings.Join(es, " "))
+	opts := genReflMeta(r)
+	if mode == "e" {
+		if r.Chance(2, 5) {
+			opts += fmt.Sprintf(" fl=h%d.%d", r.Intn(1000), r.PickInt([]int{300, 500, 1000}))
+		}
+	} else {
+		opts += genPlan(r, n, 2, 5)
+	}
+	return fmt.Sprintf("json %s %s %d %d %d %d %s%s", modeR, vh.B(r.Chance(1, 2)), r.Range(0, 3), ninst,
+		r.PickInt([]int{0, 0, 2000, 5000, 40000}), n, strings.Join(es, " "), opts)
 }
 
 // ---- scenarios ----
@@ -289,8 +337,10 @@ func genScen(r *vh.Rand) string {
 	if r.Chance(1, 4) {
 		refl = "r"
 	}
-	return fmt.Sprintf("scen %d%s %d %s %s %s %s", ninst, refl, r.PickInt([]int{0, 0, 3000, 20000}), strings.Join(order, ","),
-		strings.Join(users, ","), strings.Join(defs, "|"), strings.Join(scens, "|"))
+	// at most 4 steps per shot
+	opts := genReflMeta(r) + genPlan(r, 4*nshots, 2, 5)
+	return fmt.Sprintf("scen %d%s %d %s %s %s %s%s", ninst, refl, r.PickInt([]int{0, 0, 3000, 20000}), strings.Join(order, ","),
+		strings.Join(users, ","), strings.Join(defs, "|"), strings.Join(scens, "|"), opts)
 }
 
 // genLong: more entries than the provider's sink buffer (128), so that ammo objects released to
@@ -302,8 +352,9 @@ func genLong(r *vh.Rand) string {
 	for i := 0; i < n; i++ {
 		es = append(es, genEntry(r, fmt.Sprintf("t%d", i), len(methods)))
 	}
-	return fmt.Sprintf("json %s %s %d %d %d %d %s", r.Pick([]string{"d", "dr"}), vh.B(r.Chance(1, 2)), r.Range(0, 3), r.Range(1, 4),
-		r.PickInt([]int{0, 2000}), n, strings.Join(es, " "))
+	opts := genReflMeta(r) + genPlan(r, n, 1, 2)
+	return fmt.Sprintf("json %s %s %d %d %d %d %s%s", r.Pick([]string{"d", "dr"}), vh.B(r.Chance(1, 2)), r.Range(0, 3), r.Range(1, 4),
+		r.PickInt([]int{0, 2000}), n, strings.Join(es, " "), opts)
 }
 
 func gen(r *vh.Rand, tier string) []string {
